@@ -18,3 +18,7 @@ pub mod props_c06;
 pub mod loopsim;
 pub mod props_loop;
 pub mod props_c13;
+pub mod props_c14;
+pub mod props_c15;
+pub mod props_c17;
+pub mod props_c18;
